@@ -105,6 +105,7 @@ func GenInst(t *rapid.T, o GenOpts, kind string, allowFire bool) Inst {
 		in.Abort = GenConds(t, "a", o.RichErrors, 2)
 		in.ReturnLast = rapid.Bool().Draw(t, "returnLast")
 		in.MaxDuration = rapid.SampledFrom([]string{"", "", "", "1ns", "1h"}).Draw(t, "maxDuration")
+		in.DelayFunc = rapid.IntRange(0, 3).Draw(t, "retryDelayFunc") == 0
 		if o.CancelOneIn > 0 {
 			in.CancelInScheduled = rapid.IntRange(1, 2*o.CancelOneIn).Draw(t, "cancelInScheduled") == 1
 		}
@@ -154,7 +155,7 @@ func GenInst(t *rapid.T, o GenOpts, kind string, allowFire bool) Inst {
 		in.Mute = append([]string(nil), ListenerNames[kind]...)
 		switch kind {
 		case "retry":
-			in.MaxRetries, in.UseMaxAttempts, in.Conds, in.Abort, in.ReturnLast, in.MaxDuration, in.CancelInScheduled = 2, false, nil, nil, false, "", false
+			in.MaxRetries, in.UseMaxAttempts, in.Conds, in.Abort, in.ReturnLast, in.MaxDuration, in.CancelInScheduled, in.DelayFunc = 2, false, nil, nil, false, "", false, false
 		case "fallback":
 			in.Conds = nil
 		case "cache":
